@@ -76,6 +76,10 @@ func deferredClosures(fn *ssa.Function) []*ssa.Function {
 				out = append(out, f)
 			}
 		}
+		// a function literal without free variables is a plain function value
+		if f, ok := d.Call.Value.(*ssa.Function); ok && f.Parent() == fn {
+			out = append(out, f)
+		}
 	})
 	return out
 }
